@@ -172,6 +172,8 @@ def edits_for(root):
             for i in (0, 1, None) + ((2,) if prop == 'labels' else ()):      # labels #2 only ADDS a field to labels #0
                 ed.append(('set', path, prop, i))
         ed.append(('equal_ud', path))
+        if s.get_user_data() is not None:
+            ed += [('scribble_ud', path), ('idiom_ud', path)]
         if isinstance(s, NodeSliver):
             ed += [('add', path, 'comp', 'cNew', 'gpu'), ('add', path, 'comp', 'cNic', 'nic'), ('add', path, 'ns', 'nsNew', None)]
         if isinstance(s, ComponentSliver) and not s.network_service_info:
@@ -204,6 +206,14 @@ def apply_edit(root, e, other_side=False):
         else:
             tgt.set_user_data(UserData({'same': [1, 2], 'other': {'p': 1, 'q': 2}}))
         return 'equal_ud'
+    if k == 'scribble_ud':
+        # the caller looks at the decoded user data of this side and scribbles on the throw-away result: no change
+        ud = tgt.get_user_data()
+        if ud is None or not isinstance(json.loads(ud.json), dict):
+            return False
+        got = ud.data
+        got['scribbled'] = [0]
+        return True
     if k == 'add':
         what, name, kind = e[2], e[3], e[4]
         if what == 'comp':
@@ -249,7 +259,7 @@ def tracked(s):
     ud = s.get_user_data()
     return {'L': None if s.get_labels() is None else json.loads(s.get_labels().to_json() or '{}'),
             'C': None if s.get_capacities() is None else json.loads(s.get_capacities().to_json() or '{}'),
-            'U': None if ud is None else ud.data}
+            'U': None if ud is None else json.loads(ud.json)}      # the text, not what a decode of it currently claims
 
 
 FLAG = {'L': F.LABELS, 'C': F.CAPACITIES, 'U': F.USER_DATA}
@@ -366,6 +376,16 @@ def eval_case(case):
     y = copy.deepcopy(x)
     equal_ud = False
     for e in edits:
+        if e[0] == 'idiom_ud':
+            # the usual way to change user data: take the decoded value of the OLD side, edit it, store it on the new side
+            path = tuple(tuple(q) for q in e[1])
+            tx, ty = find(x, path), find(y, path)
+            if tx is None or ty is None or tx.get_user_data() is None or not isinstance(json.loads(tx.get_user_data().json), dict):
+                return {'v': [], 'nt': None, 'out': 'inapplicable'}
+            cfg = tx.get_user_data().data
+            cfg['changed-by-idiom'] = True
+            ty.set_user_data(UserData(cfg))
+            continue
         r = apply_edit(y, _tup(e))
         if r is False:
             return {'v': [], 'nt': None, 'out': 'inapplicable'}
